@@ -4,18 +4,19 @@
 package main
 
 import (
-	"crypto/ed25519"
-	"crypto/rand"
-	"crypto/elliptic"
-	"crypto/ecdsa"
-	"strings"
-	"crypto"
 	"bytes"
+	"crypto"
+	"crypto/ecdsa"
+	"crypto/ed25519"
+	"crypto/elliptic"
+	"crypto/rand"
 	"crypto/x509"
 	"encoding/json"
 	"encoding/pem"
 	"fmt"
 	"net/url"
+	"regexp"
+	"strings"
 	"sync"
 	"sync/atomic"
 	"testing"
@@ -153,6 +154,10 @@ func (w *vWorld) signedUnderCA(r vResp) bool {
 	if blk, _ := pem.Decode(r.Body); blk != nil && blk.Type == "CERTIFICATE" {
 		return true
 	}
+	// a bootstrap one-time password is a token too
+	if m := vBotpRe.FindSubmatch(r.Body); m != nil && len(m[1]) > 0 {
+		return true
+	}
 	if k, _, _, _, err := ssh.ParseAuthorizedKey(bytes.TrimSpace(r.Body)); err == nil {
 		if _, ok := k.(*ssh.Certificate); ok {
 			return true
@@ -171,6 +176,8 @@ func (w *vWorld) signedUnderCA(r vResp) bool {
 	}
 	return false
 }
+
+var vBotpRe = regexp.MustCompile(`"BootstrapOTPValue"\s*:\s*"([^"]+)"`)
 
 var vPubWhy string
 
@@ -235,7 +242,7 @@ func (w *vWorld) publishedOK() bool {
 		}
 	}
 	vPubWhy = "step8"
-		return false
+	return false
 }
 
 // certProbes: well-formed certificate requests (x509, ssh with an Ed25519 key - signed by the second CA key when
@@ -279,29 +286,54 @@ func runC09(t *testing.T, cases []map[string]interface{}, ev *vEvents) {
 	for ci, c := range cases {
 		switch vStr(c, "kind") {
 		case "sweep":
-			// every registered route while sealed
-			w := newSealedWorld("ok")
-			pre := w.mintCookie("alice", AuthTypePassword|AuthTypeU2F, 0) // a cookie from before the restart: signed by the (sealed) key
-			for _, p := range verifRoutePaths {
-				for _, m := range []string{"GET", "POST"} {
-					for _, cred := range []string{"none", "cookie"} {
-						q := vReq{Method: m, Path: p, Form: url.Values{"username": {"alice"}, "password": {"pw-alice"}, "OTP": {"123456"}}}
-						if cred == "cookie" {
-							q.Cookies = map[string]string{authCookieName: pre}
+			// every registered route while sealed; the second world is a replica that already knows the cluster's CA key
+			// (keymaster_public_keys_filename), where an administrator presents a certificate a peer issued
+			peer := newWorld(vWorldOpts{NoDB: true})
+			peerCA := peer.caCert()
+			peer.Close()
+			for _, world := range []string{"ok", "ok:prersa"} {
+				w := newSealedWorld(world)
+				// alice exists and has no second factor yet (a candidate for a bootstrap one-time password)
+				vMust(w.st.SaveUserProfile("alice", &userProfile{Username: "alice", U2fAuthData: map[int64]*u2fAuthData{}, TOTPAuthData: map[int64]*totpAuthData{}}))
+				pre := w.mintCookie("alice", AuthTypePassword|AuthTypeU2F, 0) // a cookie from before the restart: signed by the (sealed) key
+				for _, p := range verifRoutePaths {
+					for _, m := range []string{"GET", "POST"} {
+						for _, cred := range []string{"none", "cookie", "admincert", "peercert"} {
+							if cred == "peercert" && world == "ok" {
+								continue
+							}
+							// probes are independent of each other: whatever an earlier one did to alice is undone
+							vMust(w.st.SaveUserProfile("alice", &userProfile{Username: "alice", U2fAuthData: map[int64]*u2fAuthData{}, TOTPAuthData: map[int64]*totpAuthData{}}))
+							q := vReq{Method: m, Path: p, Form: url.Values{"username": {"alice"}, "password": {"pw-alice"}, "OTP": {"123456"}}}
+							if cred == "cookie" {
+								q.Cookies = map[string]string{authCookieName: pre}
+							}
+							if cred == "admincert" {
+								// an administrator's client certificate issued by a CA the sealed server already trusts
+								ac, _ := x509.ParseCertificate(vAdminCADer)
+								q.Chains = w.verifiedChains(vMakeCert(vCertOpts{CN: "root", Parent: ac, ParentKey: vAdminCAKey}))
+								q.Headers = map[string]string{"Accept": "application/json"}
+							}
+							if cred == "peercert" {
+								leaf := vMakeCert(vCertOpts{CN: "root", Parent: peerCA, ParentKey: vCAKey})
+								q.Chains = [][]*x509.Certificate{{leaf, peerCA}}
+								q.Headers = map[string]string{"Accept": "application/json"}
+							}
+							r := w.Do(q)
+							emit(map[string]interface{}{"ev": "Request", "trace": ci, "args": map[string]interface{}{"route": p, "method": m, "cred": cred, "world": world},
+								"out": map[string]interface{}{"signed": w.signedUnderCA(r), "class": r.Class(), "panic": r.Panic != "", "ready": false,
+									"sealedAfter": w.isSealed(), "readyMsgs": len(w.st.SignerIsReady), "ok": false, "published": false,
+									"status": r.Status, "said": strings.ReplaceAll(fmt.Sprintf("%.60q", string(r.Body)), "null", "nil")}})
 						}
-						r := w.Do(q)
-						emit(map[string]interface{}{"ev": "Request", "trace": ci, "args": map[string]interface{}{"route": p, "method": m, "cred": cred},
-							"out": map[string]interface{}{"signed": w.signedUnderCA(r), "class": r.Class(), "panic": r.Panic != "", "ready": false,
-								"sealedAfter": w.isSealed(), "readyMsgs": len(w.st.SignerIsReady), "ok": false, "published": false}})
 					}
 				}
+				w.certProbes(ci, emit, pre)
+				rz := w.DoFunc(w.st.readyzHandler, vReq{Method: "GET", Path: readyzPath})
+				emit(map[string]interface{}{"ev": "Request", "trace": ci, "args": map[string]interface{}{"route": readyzPath, "method": "GET", "cred": "none"},
+					"out": map[string]interface{}{"signed": false, "class": rz.Class(), "panic": false, "ready": rz.Status == 200, "sealedAfter": w.isSealed(),
+						"readyMsgs": len(w.st.SignerIsReady), "ok": false, "published": false}})
+				w.Close()
 			}
-			w.certProbes(ci, emit, pre)
-			rz := w.DoFunc(w.st.readyzHandler, vReq{Method: "GET", Path: readyzPath})
-			emit(map[string]interface{}{"ev": "Request", "trace": ci, "args": map[string]interface{}{"route": readyzPath, "method": "GET", "cred": "none"},
-				"out": map[string]interface{}{"signed": false, "class": rz.Class(), "panic": false, "ready": rz.Status == 200, "sealedAfter": w.isSealed(),
-					"readyMsgs": len(w.st.SignerIsReady), "ok": false, "published": false}})
-			w.Close()
 		case "sequence":
 			w := newSealedWorld(vStr(c, "file"))
 			emit(map[string]interface{}{"ev": "Reset", "trace": ci, "args": map[string]interface{}{"file": vStr(c, "file")},
